@@ -26,12 +26,21 @@ Verdict(n) ==
         exact == o.outcome = "ok" /\ ~mustRaise => (missing = {} /\ spurious = {} /\ Len(o.errors) = Cardinality(observed))
         \* when an invariant raises and verification does not, what it reports must still be right
         partial == o.outcome = "ok" /\ mustRaise => spurious = {}
-        culprit == IF missing # {} THEN CHOOSE p \in missing : TRUE ELSE IF spurious # {} THEN CHOOSE p \in spurious : TRUE ELSE <<"", "">>
+        \* an observed cause that is no description of the model at all: some description did not come back verbatim
+        garbled == {p \in spurious : \A k \in idx : evs[k].d # p[2]}
+        \* ... the invariant it belongs to: the one with the same identity (the leading words of the description,
+        \* projected by the runner into `id`) at the same path, else any expected error missing at that path
+        garbledIdx == {j \in 1..Len(o.errors) : <<o.errors[j].path, o.errors[j].cause>> \in garbled}
+        gj == IF garbledIdx = {} THEN 0 ELSE CHOOSE j \in garbledIdx : TRUE
+        byId == IF gj = 0 THEN {} ELSE {k \in idx : evs[k].path = o.errors[gj].path /\ evs[k].id = o.errors[gj].id}
+        garbledOf == IF byId # {} THEN {<<evs[k].path, evs[k].d>> : k \in byId} ELSE {p \in missing : \E q \in garbled : q[1] = p[1]}
+        culprit == IF garbledOf # {} THEN CHOOSE p \in garbledOf : TRUE
+                   ELSE IF missing # {} THEN CHOOSE p \in missing : TRUE ELSE IF spurious # {} THEN CHOOSE p \in spurious : TRUE ELSE <<"", "">>
         hits == {k \in idx : evs[k].path = culprit[1] /\ evs[k].d = culprit[2]}
-        kind == IF missing # {} THEN "missing"
+        kind == IF garbled # {} THEN "description"
+                ELSE IF missing # {} THEN "missing"
                 ELSE IF spurious # {} THEN
                     (IF hits # {} THEN "spurious"
-                     ELSE IF \E k \in idx : evs[k].path = culprit[1] THEN "description"
                      ELSE IF \E k \in idx : evs[k].d = culprit[2] THEN "path" ELSE "unknown")
                 ELSE IF Len(o.errors) # Cardinality(observed) THEN "duplicate" ELSE ""
         hit == IF hits = {} THEN 0 ELSE CHOOSE k \in hits : TRUE
@@ -42,6 +51,7 @@ Verdict(n) ==
          exact_ok |-> exact /\ partial,
          kind |-> kind, path |-> culprit[1], cause |-> culprit[2],
          feature |-> IF hit = 0 THEN "" ELSE Feature(evs[hit].e),
+         dshape |-> IF hit = 0 THEN "" ELSE evs[hit].ds,
          owner |-> IF hit = 0 THEN "" ELSE evs[hit].owner,
          inherited |-> IF hit = 0 THEN FALSE ELSE evs[hit].inherited,
          must_raise |-> mustRaise,
